@@ -89,6 +89,10 @@ def check(prog, rep):
     kc = kcs[0]
     call, f = kc.node, kc.callee
     entry = 'regions'
+    # neighbour offsets held in module-level constant tables and walked by a loop (N6, tableview.py) are read as the
+    # statements they abbreviate: one window store per slot
+    from ..tableview import unroll_constant_tables
+    f = unroll_constant_tables(prog, f)
     try:
         # a relabelling loop moved into a helper, or the two passes split into two kernels, read as written in place
         k = interpret(prog, f, strict=False, inline_procedures=True, inline_all=lambda g_: g_.jit is not None and prog.same_unit(f.module, g_.module))
